@@ -282,10 +282,141 @@ class _Splits:
 CemUpdate.replay = lambda self, label, clause, probes, model: {"kind": "pure", "which": "cem_update", "probes": probes}
 
 
-UNITS = [CemUpdate(), CemRanking(), GaussianSample(), EvoStep(), EvoInit()]
+
+class CemInitState(Unit):
+    """base case of the best-so-far invariant: before any iteration the best candidate is the initial mean and its loss is +inf (no finite loss seen yet)"""
+    name = "CEMSolver.init_state"
+    target = CEM + "::CEMSolver.init_state"
+    props = ("C18",)
+
+    def configs(self):
+        yield "stdev given", dict(stdev=True)
+        yield "default stdev", dict(stdev=False)
+
+    def run(self, ctx):
+        ex, cfg = ctx.ex, ctx.cfg
+        lo, hi = {"p": z3.Real("u_min.p"), "q": z3.Real("u_min.q")}, {"p": z3.Real("u_max.p"), "q": z3.Real("u_max.q")}
+        solver = Rec("CEMSolver", dict(u_min=lo, u_max=hi, num_samples=z3.Int("n"), evolution_smoothing=z3.Real("sm"), elite_portion=z3.Real("ep")), module=CEM, frozen=True)
+        mean = {"p": z3.Real("mean.p"), "q": z3.Real("mean.q")}
+        sd = {"p": z3.Real("stdev.p"), "q": z3.Real("stdev.q")}
+        st = ctx.call(self_obj=solver, args=[mean] + ([sd] if cfg["stdev"] else []))
+        ok = isinstance(st, Rec) and st.cls == "CEMState"
+        ctx.ensure("returns a CEMState", z3.BoolVal(ok))
+        if not ok:
+            return
+        ctx.ensure("C18 before the first iteration the best candidate is the initial mean and its loss is +inf (so the first finite loss replaces it)",
+                   z3.And(z3.BoolVal(st.f["bestsofar_loss"] is libmodels._INF), *[toz(st.f["bestsofar"][k]) == mean[k] for k in mean], *[toz(st.f["mean"][k]) == mean[k] for k in mean]))
+        ctx.ensure("the search starts with the given spread, by default half the width of the box in every dimension",
+                   z3.And(*[toz(st.f["stdev"][k]) == (sd[k] if cfg["stdev"] else (hi[k] - lo[k]) / 2) for k in mean]))
+
+
+class CemStepDataflow(Unit):
+    """cem_step: candidates are drawn by gaussian_samples from the CURRENT state with one key each, every candidate is evaluated once with its own key, and the state is
+    updated by cem_update_mean_stdev on exactly those candidates and losses; cem is the fold of that step over max_steps iterations with one key pair per iteration"""
+    name = "cem_step / cem (dataflow)"
+    target = CEM + "::cem_step"
+    props = ("C18",)
+
+    def opts(self, cfg):
+        def scan(ex, f, init, xs, length):
+            ex.ghost["scan"] = (f, init, xs)
+            return z3.Const("final_state", Leaf), z3.Const("stacked_losses", Leaf)
+        return {"scan": scan}
+
+    def run(self, ctx):
+        ex = ctx.ex
+        n = 3
+        solver = Rec("CEMSolver", dict(num_samples=n), module=CEM, frozen=True)
+        state, transform, loss = z3.Const("state", Leaf), z3.Const("transform", Leaf), z3.Const("loss_fn", Leaf)
+        rng = z3.Const("rng", Leaf)
+        vm = []
+
+        def filter_vmap(ex_, f, in_axes=None, **k):
+            def run(ex__, *args):
+                vm.append((f, in_axes, args))
+                return z3.Const(f"vmapped{len(vm)}", Leaf)
+            return run
+        ex.lib.ns["equinox"].entries["filter_vmap"] = filter_vmap
+        upd = []
+        ex.summaries["cem_update_mean_stdev"] = lambda ex_, o, a, k, node: (upd.append(a), z3.Const("new_state", Leaf))[1]
+        ret = ctx.call(args=[loss, solver, state, transform, rng])
+        ok = isinstance(ret, tuple) and len(ret) == 2 and len(vm) == 2 and len(upd) == 1
+        ctx.ensure("one sampling sweep, one evaluation sweep, one update", z3.BoolVal(ok))
+        if not ok:
+            return
+        (f1, ax1, a1), (f2, ax2, a2) = vm
+        keys = lambda x: [str(t) for t in x] if isinstance(x, list) else None
+        want_k = [str(libmodels_split(rng, i)) for i in range(2 * n)]
+        ctx.ensure("C18 candidates: gaussian_samples(solver, CURRENT state, key) mapped over the first num_samples keys only",
+                   z3.BoolVal(getattr(f1, "name", None) == "gaussian_samples" and tuple(ax1) == (None, None, 0) and a1[0] is solver and a1[1] is state and keys(a1[2]) == want_k[:n]))
+        ctx.ensure("C18 losses: loss(candidate, transform, key) mapped over exactly those candidates and the remaining keys (no key shared with the sampling)",
+                   z3.BoolVal(f2 is loss and tuple(ax2) == (0, None, 0) and z3.eq(toz(a2[0]), z3.Const("vmapped1", Leaf)) and a2[1] is transform and keys(a2[2]) == want_k[n:]))
+        ctx.ensure("C18 the state is updated from the old state with exactly these candidates and losses; the step returns the new state and the losses",
+                   z3.BoolVal(upd[0][0] is solver and upd[0][1] is state and z3.eq(toz(upd[0][2]), z3.Const("vmapped1", Leaf)) and z3.eq(toz(upd[0][3]), z3.Const("vmapped2", Leaf))
+                              and z3.eq(toz(ret[0]), z3.Const("new_state", Leaf)) and z3.eq(toz(ret[1]), z3.Const("vmapped2", Leaf))))
+        # ---- cem: the fold
+        steps = []
+        ex.summaries["cem_step"] = lambda ex_, o, a, k, node: (steps.append(a), (z3.Const("stepped", Leaf), z3.Const("step_losses", Leaf)))[1]
+        cem = ex.module_global(ctx.repo.module(CEM), "cem")
+        init = z3.Const("init_state", Leaf)
+        out = ex.call(cem, [loss, solver, init, transform], dict(max_steps=4, rng=rng, verbose=False))
+        sc = ex.ghost.get("scan")
+        ctx.ensure("cem is a scan from the given initial state", z3.BoolVal(sc is not None and sc[1] is init and isinstance(out, tuple) and len(out) == 2))
+        if sc is None:
+            return
+        carry = z3.Const("carry", Leaf)
+        xs_i = (z3.Int("i"), z3.Const("keys_i", Leaf))
+        r = ex.call(sc[0], [carry, xs_i], {})
+        ctx.ensure("C18 every iteration of cem is cem_step on the carried state with that iteration's keys; the new state is carried on, the losses are stacked",
+                   z3.BoolVal(len(steps) == 1 and steps[0][0] is loss and steps[0][1] is solver and steps[0][2] is carry and steps[0][3] is transform and steps[0][4] is xs_i[1]
+                              and isinstance(r, tuple) and z3.eq(toz(r[0]), z3.Const("stepped", Leaf)) and z3.eq(toz(r[1]), z3.Const("step_losses", Leaf))))
+
+
+def libmodels_split(rng, i):
+    return z3.Function("rng_split", Leaf, INT, Leaf)(rng, i)
+
+
+class EvoFold(Unit):
+    """evo: the fold of evo_step from (init_state, logger) over max_steps iterations with one key pair per iteration; state and logger are carried together"""
+    name = "evo (fold of evo_step)"
+    target = "rex/evo.py::evo"
+    props = ("C18",)
+
+    def opts(self, cfg):
+        def scan(ex, f, init, xs, length):
+            ex.ghost["scan"] = (f, init, xs)
+            return (z3.Const("final_evo_state", Leaf), z3.Const("final_logger", Leaf)), z3.Const("stacked_losses", Leaf)
+        return {"scan": scan}
+
+    def run(self, ctx):
+        ex = ctx.ex
+        solver = Rec("EvoSolver", dict(strategy=Rec("Strategy", dict(popsize=8), module=None)), module="rex/evo.py", frozen=True)
+        transform, loss, rng = z3.Const("transform", Leaf), z3.Const("loss_fn", Leaf), z3.Const("rng", Leaf)
+        init, logger = z3.Const("init_state", Leaf), z3.Const("logger", Leaf)
+        steps = []
+        ex.summaries["evo_step"] = lambda ex_, o, a, k, node: (steps.append(a), ((z3.Const("stepped_state", Leaf), z3.Const("stepped_logger", Leaf)), z3.Const("step_losses", Leaf)))[1]
+        out = ctx.call(args=[loss, solver, init, transform], kwargs=dict(max_steps=5, rng=rng, verbose=False, logger=logger))
+        sc = ex.ghost.get("scan")
+        ok = sc is not None and isinstance(sc[1], tuple) and len(sc[1]) == 2 and sc[1][0] is init and sc[1][1] is logger
+        ctx.ensure("C18 evo is a scan that starts from the given strategy state and logger", z3.BoolVal(ok))
+        ctx.ensure("returns (final state, final logger, losses of every generation)", z3.BoolVal(isinstance(out, tuple) and len(out) == 3 and z3.eq(toz(out[0]), z3.Const("final_evo_state", Leaf)) and z3.eq(toz(out[1]), z3.Const("final_logger", Leaf))
+                                                                                          and z3.eq(toz(out[2]), z3.Const("stacked_losses", Leaf))))
+        if not ok:
+            return
+        carry = (z3.Const("carry_state", Leaf), z3.Const("carry_logger", Leaf))
+        xs_i = (z3.Int("i"), z3.Const("keys_i", Leaf))
+        r = ex.call(sc[0], [carry, xs_i], {})
+        ctx.ensure("C18 every generation is evo_step on the carried state and logger with that generation's keys; its result is carried on whole (state and logger), the losses are stacked",
+                   z3.BoolVal(len(steps) == 1 and steps[0][0] is loss and steps[0][1] is solver and steps[0][2] is carry[0] and steps[0][3] is transform and steps[0][4] is xs_i[1] and steps[0][5] is carry[1]
+                              and isinstance(r, tuple) and isinstance(r[0], tuple) and z3.eq(toz(r[0][0]), z3.Const("stepped_state", Leaf)) and z3.eq(toz(r[0][1]), z3.Const("stepped_logger", Leaf))
+                              and z3.eq(toz(r[1]), z3.Const("step_losses", Leaf))))
+
+
+UNITS = [CemUpdate(), CemRanking(), GaussianSample(), EvoStep(), EvoInit(), CemInitState(), CemStepDataflow(), EvoFold()]
 EXTRA = dict(assumptions=["losses live in R u {NaN}; +inf is a sentinel above every finite loss (tagged encoding of IEEE values)",
                           "EVO: that evosax honours clip_min/clip_max and keeps its best member is the library's contract (assumed); only the rex-side dataflow is proved",
-                          "CEM over a scan of cem_step: 'equals the smallest finite loss so far' follows by induction over iterations from the per-iteration clause (written argument)",
+                          "CEM: base case (init_state: best = initial mean, loss +inf), step (cem_update_mean_stdev) and the fold structure (cem = scan of cem_step from the given state; cem_step = sample / evaluate / update on the carried state) are each under contract; "
+                          "'equals the smallest finite loss so far' then follows by induction over iterations (the induction itself is a written argument; eqx.filter_vmap is taken as the leafwise map it documents)",
                           "parameters analysed as one scalar leaf (tree_map is leafwise)"])
 
 
